@@ -108,3 +108,120 @@ Theorem sum_scalar_spec sh st0 st axes values :
   eval_sum (TArray sh st0) (TScalar st) axes (VArr values)
   = Ok (VArr [list_sum_z values mod modulus st]).
 Proof. unfold eval_sum. cbn [arr_of bind is_arr negb]. now rewrite fold_k_add_0. Qed.
+
+(* ------------------------------------------------------------------ sum along axes *)
+Lemma drop_axes_in_shape axes idx sh : in_shape idx sh ->
+  forall k, in_shape (drop_axes k axes idx) (drop_axes k axes sh).
+Proof.
+  induction 1 as [|x d idx sh Hx Hin IH]; intros k; cbn [drop_axes]; [constructor|].
+  destruct (existsb (Z.eqb k) axes); [apply IH|constructor; auto].
+Qed.
+
+Lemma mapM_res_axes axes idx : forall pre,
+  mapM (fun ax => znth (pre ++ idx) ax)
+       (filter (fun j => negb (existsb (Z.eqb j) axes))
+               (map (Z.add (Z.of_nat (length pre))) (zrange (Z.of_nat (length idx)))))
+  = Ok (drop_axes (Z.of_nat (length pre)) axes idx).
+Proof.
+  induction idx as [|x r IH]; intros pre; [reflexivity|].
+  cbn [length]. rewrite Nat2Z.inj_succ. unfold Z.succ. rewrite (Z.add_comm _ 1).
+  rewrite zrange_app by lia. change (zrange 1) with [0]. cbn [app map filter drop_axes].
+  rewrite Z.add_0_r. rewrite map_map.
+  specialize (IH (pre ++ [x])). rewrite app_length, Nat2Z.inj_add in IH. cbn [length] in IH.
+  rewrite <- app_assoc in IH. cbn [app] in IH.
+  rewrite (map_ext (fun x0 => Z.of_nat (length pre) + (1 + x0)) (Z.add (Z.of_nat (length pre) + Z.of_nat 1)))
+    by (intros; lia).
+  destruct (existsb (Z.eqb (Z.of_nat (length pre))) axes); cbn [negb].
+  - exact IH.
+  - cbn [mapM]. rewrite (znth_ok _ _ 0) by (rewrite app_length; cbn [length]; lia).
+    rewrite Nat2Z.id, nth_middle. cbn [bind]. rewrite IH. reflexivity.
+Qed.
+
+Lemma mapM_res_axes0 axes idx :
+  mapM (fun ax => znth idx ax)
+       (filter (fun j => negb (existsb (Z.eqb j) axes)) (zrange (Z.of_nat (length idx))))
+  = Ok (drop_axes 0 axes idx).
+Proof.
+  pose proof (mapM_res_axes axes idx []) as H. cbn [length app] in H.
+  rewrite (map_ext _ (fun x => x)) in H by (intros; lia). rewrite map_id in H. exact H.
+Qed.
+
+Lemma sum_loop st sh axes values :
+  valid_shape sh -> length values = Z.to_nat (prod_list sh) ->
+  let rsh := drop_axes 0 axes sh in
+  let res_axes := filter (fun j => negb (existsb (Z.eqb j) axes)) (zrange (Z.of_nat (length sh))) in
+  exists r,
+    fold_left (fun acc i =>
+                 let* r := acc in
+                 let* inp_index := number_to_index i sh in
+                 let* new_index := mapM (fun ax => znth inp_index ax) res_axes in
+                 let* new_i := index_to_number new_index rsh in
+                 let* old := znth r new_i in
+                 let* x := znth values i in
+                 upd r new_i (k_add st old x))
+              (zrange (Z.of_nat (length values)))
+              (Ok (repeat 0 (Z.to_nat (prod_list rsh)))) = Ok r /\
+    length r = Z.to_nat (prod_list rsh) /\
+    forall ridx, in_shape ridx rsh -> get r rsh ridx = sum_axes_at values sh axes ridx mod modulus st.
+Proof.
+  intros Hv Hl rsh res_axes. pose proof (modulus_pos st) as Hm.
+  pose proof (prod_list_pos sh Hv) as Hp.
+  set (P := fun i => flat_pos (drop_axes 0 axes (unravel i sh)) rsh).
+  set (N := Z.to_nat (prod_list rsh)).
+  set (Inv := fun (k : nat) (r : list Z) =>
+     length r = N /\ forall p, 0 <= p < Z.of_nat N ->
+       nth (Z.to_nat p) r 0 =
+       zsum (fun i => if P i =? p then nth (Z.to_nat i) values 0 else 0) (Z.of_nat k) mod modulus st).
+  destruct (fold_left_result_inv
+    (fun r i =>
+                 let* inp_index := number_to_index i sh in
+                 let* new_index := mapM (fun ax => znth inp_index ax) res_axes in
+                 let* new_i := index_to_number new_index rsh in
+                 let* old := znth r new_i in
+                 let* x := znth values i in
+                 upd r new_i (k_add st old x)) Inv (length values) (repeat 0 N)) as (r & E & HI).
+  - split; [apply repeat_length|]. intros p Hp'. rewrite nth_repeat_0. rewrite zsum_0.
+    now rewrite Z.mod_0_l by lia.
+  - intros k r Hk (Lr & Hr).
+    destruct (number_to_index_unravel sh (Z.of_nat k) Hv ltac:(lia)) as (E1 & Hin & Hf).
+    rewrite E1. cbn [bind]. unfold res_axes. rewrite <- (in_shape_length _ _ Hin).
+    rewrite mapM_res_axes0. cbn [bind].
+    pose proof (drop_axes_in_shape axes _ _ Hin 0) as Hin'. fold rsh in Hin'.
+    rewrite (index_to_number_flat_pos _ _ Hin'). cbn [bind]. fold (P (Z.of_nat k)).
+    pose proof (flat_pos_range _ _ Hin') as R. fold (P (Z.of_nat k)) in R.
+    assert (HN : Z.of_nat N = prod_list rsh) by (unfold N; lia).
+    rewrite (znth_ok r _ 0) by lia. cbn [bind]. rewrite (znth_ok values _ 0) by lia. cbn [bind].
+    rewrite upd_ok by lia. eexists. split; [reflexivity|]. split; [now rewrite set_nth_length|].
+    intros p Hp'. rewrite nth_set_nth by lia. rewrite Nat2Z.inj_succ. unfold Z.succ.
+    rewrite zsum_succ by lia.
+    destruct (Nat.eqb_spec (Z.to_nat p) (Z.to_nat (P (Z.of_nat k)))) as [Ep|Ep].
+    + assert (p = P (Z.of_nat k)) by lia. subst p. rewrite Z.eqb_refl.
+      rewrite k_add_mod. rewrite Hr by lia. rewrite Zplus_mod_idemp_l. reflexivity.
+    + replace (P (Z.of_nat k) =? p) with false by lia. rewrite Z.add_0_r. apply Hr. lia.
+  - destruct HI as (Lr & Hr). exists r. split; [exact E|]. split; [exact Lr|].
+    intros ridx Hridx. unfold get. pose proof (flat_pos_range _ _ Hridx) as R.
+    rewrite Hr by (unfold N; lia). f_equal.
+    replace (Z.of_nat (length values)) with (prod_list sh) by lia.
+    rewrite zsum_over_indices by auto. unfold sum_axes_at. apply list_sum_z_map_ext.
+    intros idx Hidx. pose proof (all_indices_in_shape sh Hv) as Hall. rewrite Forall_forall in Hall.
+    specialize (Hall idx Hidx). unfold P. rewrite unravel_flat_pos by auto.
+    pose proof (drop_axes_in_shape axes _ _ Hall 0) as Hd. fold rsh in Hd.
+    destruct (list_eqb Z.eqb (drop_axes 0 axes idx) ridx) eqn:Eq.
+    + apply list_eqb_eq in Eq; [|intros; lia]. rewrite Eq, Z.eqb_refl. reflexivity.
+    + destruct (Z.eqb_spec (flat_pos (drop_axes 0 axes idx) rsh) (flat_pos ridx rsh)) as [Ef|Ef]; [|reflexivity].
+      apply flat_pos_inj in Ef; auto. rewrite Ef in Eq.
+      rewrite list_eqb_refl in Eq by (intros; lia). discriminate.
+Qed.
+
+Theorem sum_axes_spec sh st0 st axes values :
+  valid_shape sh -> axes <> [] -> length values = Z.to_nat (prod_list sh) ->
+  let rsh := drop_axes 0 axes sh in
+  exists r, eval_sum (TArray sh st0) (TArray rsh st) axes (VArr values) = Ok (VArr r) /\
+    length r = Z.to_nat (prod_list rsh) /\
+    forall ridx, in_shape ridx rsh -> get r rsh ridx = sum_axes_at values sh axes ridx mod modulus st.
+Proof.
+  intros Hv Ha Hl rsh. destruct (sum_loop st sh axes values Hv Hl) as (r & E & Lr & Hr).
+  exists r. split; [|split; [exact Lr|exact Hr]].
+  unfold eval_sum. cbn [arr_of bind is_arr negb shape_of].
+  destruct axes as [|a0 ax]; [congruence|]. fold rsh. unfold rsh in E |- *. rewrite E. reflexivity.
+Qed.
